@@ -144,4 +144,27 @@ HugeNewFails(bpp, it) ==
       fits  == IF zero THEN it[5] = 0 ELSE IF small THEN it[5] = ExpectedLen(it[2], it[4], bpp) ELSE FALSE
   IN   (IF it[6] = 1 /\ ~fits THEN {"new_accepts_wrong_length"} ELSE {})
   \cup (IF it[6] = 0 /\ fits THEN {"new_rejects_required_length"} ELSE {})
+
+\* One image with more than 2^32 pixels (1 bpp, all zero except the bytes o.rowbytes at the rows of the sub-image o.sub,
+\* whose x is a multiple of 8 and whose width is 8 * Len(o.rowbytes[1])): the sub-image drawn at o.at, pixel() probes
+\* <<x, y, option>>, and the whole image drawn at the origin on a target that stops reading after o.cap colours.
+GiantBit(o, x, y) ==
+  LET rx == x - o.sub[1]  ry == y - o.sub[2] IN
+  IF rx >= 0 /\ rx < o.sub[3] /\ ry >= 0 /\ ry < o.sub[4]
+  THEN (o.rowbytes[ry + 1][(rx \div 8) + 1] \div (2 ^ (7 - (rx % 8)))) % 2 ELSE 0
+GiantFails(o) ==
+  LET n == o.sub[3] * o.sub[4]
+      exp == [i \in 1..n |-> GiantBit(o, o.sub[1] + ((i - 1) % o.sub[3]), o.sub[2] + ((i - 1) \div o.sub[3]))]
+  IN   (IF /\ Len(o.subcalls) = 1 /\ o.subcalls[1].m = "fc"
+           /\ o.subcalls[1].area = <<o.at[1], o.at[2], o.sub[3], o.sub[4]>>
+           /\ o.subcalls[1].n = n /\ o.subcalls[1].cs = exp
+        THEN {} ELSE {"giant_sub_image"})
+  \cup (IF \A i \in 1..Len(o.probes) :
+            LET p == o.probes[i]  inside == p[1] >= 0 /\ p[2] >= 0 /\ p[1] < o.size[1] /\ p[2] < o.size[2] IN
+            p[3] = IF inside THEN Some(GiantBit(o, p[1], p[2])) ELSE NoneV
+        THEN {} ELSE {"giant_pixel"})
+  \cup (IF /\ Len(o.whole) = 1 /\ o.whole[1].m = "fc" /\ o.whole[1].area = <<0, 0, o.size[1], o.size[2]>>
+           /\ o.whole[1].over = 1 /\ o.whole[1].n >= o.cap
+           /\ \A i \in 1..Len(o.whole[1].cs) : o.whole[1].cs[i] = 0
+        THEN {} ELSE {"giant_whole_stream"})
 =============================================================================
